@@ -254,8 +254,8 @@ def eval_determinism(ctx, world, record=True):
 
 def plan(tier, seed):
     if tier == "quick":
-        return [{"task": "policy", "examples": 500} for _ in range(11)] + [{"task": "determinism", "examples": 150} for _ in range(5)]
-    return [{"task": "policy", "examples": 20000} for _ in range(20)] + [{"task": "determinism", "examples": 6000} for _ in range(12)]
+        return [{"task": "policy", "examples": 400} for _ in range(11)] + [{"task": "determinism", "examples": 100} for _ in range(5)]
+    return [{"task": "policy", "examples": 8000} for _ in range(20)] + [{"task": "determinism", "examples": 2500} for _ in range(12)]
 
 
 def run_task(ctx, task, **kw):
